@@ -29,6 +29,19 @@ type verifVector struct {
 	Layers  [][2]uint64      `json:"layers"`
 	Sched   []uint64         `json:"sched"`
 	Expect  []string         `json:"expect"`
+	Own     []string         `json:"own"`
+}
+
+func vrOwns(label string) bool {
+	if vr.vec == nil || len(vr.vec.Own) == 0 {
+		return true
+	}
+	for _, p := range vr.vec.Own {
+		if strings.HasPrefix(label, p) {
+			return true
+		}
+	}
+	return false
 }
 
 type verifStop struct{ why string }
@@ -100,6 +113,9 @@ func verifAssert(label string, cond bool) {
 		b = 1
 	}
 	vr.events = append(vr.events, fmt.Sprintf("assert:%s=%d", label, b))
+	if !cond && !vrOwns(label) {
+		return // an assertion of another property: traced, not judged here
+	}
 	if !cond {
 		vr.failed = label
 		vr.classes = classes
